@@ -44,6 +44,11 @@ CLAIMS = {
             "is compared with the real provider on random bytes and mutations of valid documents (truncation, flips, length tampering, splices, NaN, non-string keys) under catch_unwind.",
             TB + "The reader refinement theorem over whole histories is not closed yet (DESIGN.md §4 C01/C08).",
             "Lean 4 theorems over a hand-written model + differential correspondence on malformed inputs", "§4 C08"),
+    "C09": ("Theorems at document level: for every value of the write-side family (unit, bool, i32, non-NaN f64, strings, options, vectors, string-keyed maps, any nesting) whose type has no Option directly over a nullable type, deserialising the document its serialisation builds returns the value "
+            "(mutual induction over values; uses the exactness of i32 -> f64 -> i32 proved for all |z| < 2^53); the excluded shape is proved to fail (Some(()) -> None, known finding F10); mismatching documents are rejected for every type constructor, wrong lengths for fixed arrays and tuples. "
+            "The real Serialize -> finalize -> re-initialise -> Deserialize pipeline is run on 35 concrete nested Rust types with seeded values (plus Vec->array/tuple, HashMap->BTreeMap read-side variants) and compared with the model, with an independent decoder and with serde_json; 60 documents x 63 types for mismatches.",
+            TB + "The theorem is about the document tree; that the written bytes decode to that tree is C02's obligation and that reading the bytes equals reading the tree is C01's — both tied by byte-level correspondence here. HashMap iteration order: answers are compared with maps sorted. serde_json / rmp_serde as the JSON oracle.",
+            "Lean 4 theorems by mutual induction over typed values + differential correspondence over a macro-instantiated type family", "§4 C09"),
     "C10": ("Theorems for all doubles: for i8/i16/i32/u8/u16/u32 Ok(r) iff the double is an integer with exact value r in range; for the 64-bit types the same for every double except 2^63 / 2^64, "
             "with the counterexamples proved and reported as known findings; guard and cast compared with the real Deserialize impls on every power of two +-2 ulp, bounds, halves, infinities and random doubles for the ten types.",
             TB, "Lean 4 theorems (case analysis over exact values, decide +kernel for the bounds) + differential correspondence", "§4 C10"),
